@@ -8,7 +8,7 @@ junk2 = [bytearray(64 + (i % 7)) for i in range(int(os.environ.get("VERIF_JUNK",
 def main():
     spec = json.load(open(sys.argv[1]))
     from harness import env, gen, programs
-    ns = env.load(with_utils=spec["kind"] in ("split", "onehot-strings"))
+    ns = env.load(with_utils=spec["kind"] in ("split", "split-arrays", "onehot-strings"))
     import numpy as np, random
     sg, nn = ns.sg, ns.nn
     tap = {"constructions": [], "draw_calls": {}}
@@ -108,6 +108,39 @@ def main():
             put(persist["model"](persist["x"]).data)
             put(persist["drop"](sg.ones(4, 9)).data)
             put(sg.rand(3).data)
+        elif kind == "retrain-existing-model":
+            # LR sweep / k-fold idiom: the same model object is re-initialised in place and trained again with a NEW optimizer;
+            # after manual_seed every repeat must be the same run (no state of an earlier optimizer may leak into the next one)
+            if "rmodel" not in persist:
+                persist["rmodel"] = nn.Sequential(nn.Linear(4, 5), nn.ReLU(), nn.Linear(5, 2))
+                persist["rX"] = ns.Tensor(np.linspace(-1, 1, 24).reshape(6, 4).astype(np.float32))
+                persist["rt"] = ns.Tensor(np.array([0, 1, 1, 0, 1, 0], dtype=np.int64))
+            model = persist["rmodel"]
+            sg.manual_seed(spec["manual_seed"])             # (building the model above consumed draws in the first repeat)
+            for m in model.submodules():
+                if hasattr(m, "reset_parameters"):
+                    m.reset_parameters()
+            for make in (lambda ps: ns.optim.SGD(ps, lr=0.05, momentum=0.9), lambda ps: ns.optim.Adam(ps, lr=0.01),
+                         lambda ps: ns.optim.SGD(ps, lr=0.05, momentum=0.5, nesterov=True, weight_decay=0.01)):
+                opt = make(model.parameters())
+                for step in range(3):
+                    loss = nn.CrossEntropyLoss()(model(persist["rX"]), persist["rt"])
+                    opt.zero_grad(); loss.backward(); opt.step()
+                    put(loss.data)
+            for p in model.parameters():
+                put(p.data)
+        elif kind == "split-arrays":
+            # the caller's arrays are reused run after run: the split may not reorder or otherwise change them
+            if "sX" not in persist:
+                persist["sX"] = np.arange(46, dtype=np.float32).reshape(23, 2)
+                persist["sy"] = np.arange(23, dtype=np.float32)
+                persist["sX64"] = np.arange(40, dtype=np.float64).reshape(20, 2)
+                persist["sy_int"] = np.arange(20)
+            for X, y in ((persist["sX"], persist["sy"]), (persist["sX64"], persist["sy_int"])):
+                tr, te, va = ns.data.split_dataset(X, y, test_split=0.3, val_split=0.2, shuffle=True)
+                for part in (tr, te, va):
+                    put(part[0]); put(part[1])
+                put(X); put(y)
         elif kind == "train-conv":
             # windows that are disjoint but do not tile the input: every cell of the input gradient must still be defined
             model = nn.Sequential(nn.Conv2d(1, 2, 2), nn.MaxPool2d(2), nn.Flatten(), nn.Linear(2 * 3 * 3, 2))
